@@ -186,10 +186,14 @@ impl TransportConstraint {
         let departure = prev.schedule.departure;
 
         if actor.detail.time.end < prev.place.time.start
-            || actor.detail.time.end < target.place.time.start
             || next.is_some_and(|next| actor.detail.time.end < next.place.time.start)
         {
             return ConstraintViolation::fail(self.time_window_code);
+        }
+
+        // NOTE this is specific to the target's time window: other time windows or places can still fit
+        if actor.detail.time.end < target.place.time.start {
+            return ConstraintViolation::skip(self.time_window_code);
         }
 
         let (next_act_location, latest_arr_time_at_next) = if let Some(next) = next {
@@ -204,7 +208,12 @@ impl TransportConstraint {
             + self.transport.duration(route, prev.place.location, next_act_location, TravelTime::Departure(departure));
 
         if arr_time_at_next > latest_arr_time_at_next {
-            return ConstraintViolation::fail(self.time_window_code);
+            // NOTE in open vrp case, it is the target's time window which is checked: try the next one
+            return if next.is_some() {
+                ConstraintViolation::fail(self.time_window_code)
+            } else {
+                ConstraintViolation::skip(self.time_window_code)
+            };
         }
         if target.place.time.start > latest_arr_time_at_next {
             return ConstraintViolation::skip(self.time_window_code);
